@@ -1,7 +1,7 @@
 (* C02: model of GameOver / WinDetails / ResultFromGame vs the implementation. *)
 open Common
 let col = function GameOver.GWhite -> "W" | GameOver.GBlack -> "B" | GameOver.GNone -> "N"
-let run _args =
+let run (_args : string list) =
   run_cases (fun fs ->
     let p = parse_pos (L.hd fs) in
     match GameOver.win_details p, GameOver.analyze p with
